@@ -169,6 +169,10 @@ def reset_work(job):
         h2 = [rng.choice(C.EVENTS) for _ in range(rng.randint(1, 4))]
         ref = c01lib.ref_run(ch, h1); ref2 = c01lib.ref_run(ch, h2)
         if ref.diverged or ref2.diverged: continue
+        if dm == 'lua' and rng.random() < 0.5:
+            # state that lives outside <datamodel>: a Lua global created by a script. reset() has to forget it like everything else
+            for st in ch.proper()[:2]:
+                st.onentry.insert(0, [('xml', '<script>gcount = (gcount or 0) + 1</script>'), ('xml', '<log label="G" expr="gcount"/>')])
         xml = C.render(ch, dm); eng = rng.choice(['large', 'fast'])
 
         def script(h):
